@@ -39,7 +39,8 @@ Definition xstack (v : variant) (pre : list mw) (x : xmw) (post : list mw) (s : 
 (** the property as an acceptor of one observed invocation of [pre ++ X :: post] around a script:
     0 the handler is called as often as X alone calls the handler that carries post's documented
     effects (twice / once / not at all); 1 consecutive call numbers; 2 error / panic value = that
-    run's through [eff pre]; 3 the message context afterwards is the context before *)
+    run's through [eff pre]; 3 as many produced messages as that run returns (both calls' outputs on
+    success, none with an error); 4 the message context afterwards is the context before *)
 Definition bare_x (x : xmw) (post : list mw) (s : script) (w0 : world) : world * outcome :=
   x_sem x (scripted (map_res (effo post) s)) (W (w_msg w0) (w_calls w0) []).
 Definition clauses_x (pre : list mw) (x : xmw) (post : list mw) (s : script) (w0 : world)
@@ -48,6 +49,7 @@ Definition clauses_x (pre : list mw) (x : xmw) (post : list mw) (s : script) (w0
   [ Nat.eqb (ncalls tr) (w_calls wb - w_calls w0);
     call_indices_from (w_calls w0) tr;
     K_eqb (rkind r) (eff pre (rkind rb));
+    Nat.eqb (length (outs_of r)) (length (outs_of rb));
     Bool.eqb (v_same v) (v_same (view (w_msg w0)))
     && Bool.eqb (v_done v) (ctx_done (w_msg wb))
     && optZ_eqb (v_deadline v) (v_deadline (view (w_msg w0))) ].
